@@ -15,8 +15,10 @@ From LZ4V Require Import Gen.Consts Spec.BlockSpec Spec.XXH32 Spec.FrameSpec Mod
 Import ListNotations.
 Local Open Scope Z_scope.
 
-Record idec := mkI { i_F : list byte; i_C : list byte; i_i : nat; i_j : nat }.
-Definition ideal0 (F C : list byte) : idec := mkI F C 0 0.
+(* state: the bytes of the frame not yet consumed and the content not yet delivered, with
+   their numbers (so that a call costs only what it moves) *)
+Record idec := mkI { i_F : list byte; i_nF : nat; i_C : list byte; i_nC : nat }.
+Definition ideal0 (F C : list byte) : idec := mkI F (length F) C (length C).
 
 Fixpoint beq_bytes (a b : list byte) : bool :=
   match a, b with
@@ -38,13 +40,12 @@ Definition ideal_info (d : idec) (s : list byte) : fres (Z * nat) * idec :=
         | None => (FErr C10_ERR_GENERIC, d)       (* incomplete or invalid descriptor: not told apart *)
         | Some (desc, r1) =>
           let h := (length s - length r1)%nat in
-          (FOk (f_bsid desc, h), mkI (i_F d) (i_C d) h 0)
+          (FOk (f_bsid desc, h), mkI (skipn h (i_F d)) (i_nF d - h) (i_C d) (i_nC d))
         end
     end.
 
 Definition ideal_dec (d : idec) (s : list byte) (cap : nat) : dres * idec :=
-  let remF := (length (i_F d) - i_i d)%nat in
-  if Nat.eqb remF 0 then
+  if Nat.eqb (i_nF d) 0 then
     (* the frame is complete: the context starts over *)
     if Nat.ltb (length s) 7 then (DOk 1 (length s) [], d)
     else
@@ -52,13 +53,13 @@ Definition ideal_dec (d : idec) (s : list byte) (cap : nat) : dres * idec :=
       if (w =? MAGIC) || ((MAGIC_SKIP_LO <=? w) && (w <=? MAGIC_SKIP_HI)) then (DErr C10_ERR_GENERIC, d)
       else (DErr C10_ERR_frameType_unknown, d)
   else
-    let m := Nat.min (length s) remF in
-    if negb (beq_bytes (firstn m s) (firstn m (skipn (i_i d) (i_F d)))) then (DErr C10_ERR_GENERIC, d)
+    let m := Nat.min (length s) (i_nF d) in
+    if negb (beq_bytes (firstn m s) (firstn m (i_F d))) then (DErr C10_ERR_GENERIC, d)
     else
-      let o := Nat.min cap (length (i_C d) - i_j d) in
-      let c := if Nat.eqb (i_j d + o) (length (i_C d)) then m else Nat.min m (remF - 1) in
-      (DOk (if Nat.eqb (i_i d + c) (length (i_F d)) then 0 else 1) c (firstn o (skipn (i_j d) (i_C d))),
-       mkI (i_F d) (i_C d) (i_i d + c) (i_j d + o)).
+      let o := Nat.min cap (i_nC d) in
+      let c := if Nat.eqb o (i_nC d) then m else Nat.min m (i_nF d - 1) in
+      (DOk (if Nat.eqb c (i_nF d) then 0 else 1) c (firstn o (i_C d)),
+       mkI (skipn c (i_F d)) (i_nF d - c) (skipn o (i_C d)) (i_nC d - o)).
 
 (* LZ4F_readOpen + a sequence of LZ4F_read calls on a file, with the idealised decompressor.
    [bdec] is the block decoder handed to frame_decode (strict_valid or its fast twin). *)
